@@ -35,7 +35,7 @@ NOT_DECIDED = ["termination and exception types of third-party parsers (pypdf, o
 TRUSTED = ["CFG with exceptional edges (sa/engine/cfg.py)", "interval domain and regex minimum widths (sa/engine/loops.py, re._parser.getwidth)",
            "TextIOWrapper.write encodes its whole argument before buffering, so one write is all-or-nothing",
            "a generator's body runs only while it is iterated: exceptions surface at the consumer's next()"]
-FLOORS = {"C01-WRAP": 70, "C01-EXIT": 1, "C01-CLI": 6, "C01-REC": 15, "C01-LOOP": 25, "C01-UNBOUND": 150}
+FLOORS = {"C01-BORROW": 40, "C01-REGEX": 90, "C01-WRAP": 70, "C01-EXIT": 1, "C01-CLI": 6, "C01-REC": 15, "C01-LOOP": 25, "C01-UNBOUND": 150}
 
 LEGACY = {"read_doc", "read_ppt", "read_xls"}
 
@@ -769,4 +769,101 @@ def rule_unbound(ctx: Ctx) -> RuleReport:
     return rep
 
 
-RULES = [rule_wrap, rule_exit, rule_cli, rule_rec, rule_loop, rule_unbound]
+# Patterns whose loop is exponentially ambiguous but whose matcher provably never reaches the ambiguous paths first. One named
+# constant each, keyed by the exact pattern text (any edit of the pattern re-opens the question).
+REGEX_EXEMPT = {
+    ("sharepoint2text/parsing/extractors/ms_legacy/rtf_extractor.py", r"\{\\pict([^}]*(?:\{[^}]*\}[^}]*)*)\}"):
+        "_RE_PICT: '{{a}' can be read as '{' + '{a}' or as one group, but the greedy prefix [^}]* stops at the first '}' and the final \\} "
+        "accepts there before any loop iteration is tried; with no '}' in the text no iteration can complete (B3 needs '}'), each start "
+        "position fails in linear time: worst case quadratic, measured 0.00 s for 95 characters of the pumped family",
+}
+_RE_FUNCS = {"compile", "sub", "subn", "search", "match", "findall", "finditer", "split", "fullmatch"}
+
+
+def _pattern_of(ctx, mod, e):
+    """The pattern text of a regex call: constants folded; non-constant pieces (re.escape(x), a keyword from a fixed tuple)
+    are replaced by one literal letter, which only removes choices from the language."""
+    v = ctx.folder.fold(mod, e)
+    if isinstance(v, (str, bytes)):
+        return v, False
+    if isinstance(e, ast.BinOp) and isinstance(e.op, ast.Add):
+        l, r = _pattern_of(ctx, mod, e.left), _pattern_of(ctx, mod, e.right)
+        if l and r and type(l[0]) is type(r[0]):
+            return l[0] + r[0], True
+        return None
+    if isinstance(e, ast.JoinedStr):
+        out = ""
+        for part in e.values:
+            if isinstance(part, ast.Constant):
+                out += part.value
+            else:
+                out += "Q"
+        return out, True
+    if isinstance(e, (ast.Call, ast.Name, ast.Attribute, ast.Subscript)):
+        return "Q", True
+    return None
+
+
+def rule_regex(ctx: Ctx) -> RuleReport:
+    """Termination: no regular expression of the library has an exponentially ambiguous loop (catastrophic backtracking)."""
+    import re as _re
+
+    from sa.engine.redos import Undecided, exponential_ambiguity
+
+    rep = RuleReport("C01-REGEX", "no regex constant contains a loop that can be traversed in two ways on the same text (EDA on the pattern's Thompson automaton): "
+                     "a backtracking matcher needs 2^n steps on such input, which is non-termination in practice")
+    for m in ctx.p.modules.values():
+        if "/tests/" in m.rel:
+            continue
+        for c in ast.walk(m.tree):
+            if not (isinstance(c, ast.Call) and c.args):
+                continue
+            d = dotted(c.func) or ""
+            if not (d.startswith("re.") and d.split(".")[-1] in _RE_FUNCS and d.count(".") == 1):
+                continue
+            got = _pattern_of(ctx, m, c.args[0])
+            if got is None or got == ("Q", True):
+                rep.obligations += 1
+                rep.residual.append(f"{m.rel}:{c.lineno}: pattern `{short(c.args[0], 50)}` is not a constant; not judged")
+                continue
+            pat, partial = got
+            fl = 0
+            for a in list(c.args[1:]) + [k.value for k in c.keywords]:
+                for x in ast.walk(a):
+                    if isinstance(x, ast.Attribute) and isinstance(x.value, ast.Name) and x.value.id == "re" and isinstance(getattr(_re, x.attr, None), _re.RegexFlag):
+                        fl |= getattr(_re, x.attr)
+            rep.unit(m.rel)
+            try:
+                w = exponential_ambiguity(pat, int(fl))
+            except Undecided as exc:
+                rep.obligations += 1
+                rep.residual.append(f"{m.rel}:{c.lineno}: {exc}; not judged")
+                continue
+            except Exception as exc:  # a pattern the stdlib parser rejects cannot be compiled by the library either
+                raise AnalysisError(f"C01-REGEX: cannot parse the pattern at {m.rel}:{c.lineno}: {exc}")
+            text = pat if isinstance(pat, str) else pat.decode("latin-1")
+            if w is None:
+                rep.ok({"pattern": text[:60], "where": f"{m.rel.split('/')[-1]}:{c.lineno}", "ambiguous_loop": False})
+            elif (m.rel, text) in REGEX_EXEMPT:
+                rep.ok({"pattern": text[:60], "ambiguous_loop": True, "exempt": REGEX_EXEMPT[(m.rel, text)][:200]})
+            else:
+                rep.fail(Finding("C01-REGEX", m.rel, "<module>" if True else "", "regex " + text[:120], f"the pattern `{text[:100]}` has an exponentially ambiguous loop: {w}. On input that makes the rest of the pattern fail the matcher tries every division (2^n for n repetitions): the extraction never returns", line=c.lineno))
+    return rep
+
+
+def rule_borrow(ctx: Ctx) -> RuleReport:
+    """The input stream is borrowed: an extractor that closes it makes the caller's next use fail with ValueError (outside the family)."""
+    from sa.rules import c06
+
+    src = c06.rule_input(ctx)
+    rep = RuleReport("C01-BORROW", "no extractor closes the stream it was given (`with stream:`, stream.close()): the attachment iterator and callers rewind it afterwards")
+    rep.units = src.units
+    for f in src.findings:
+        if f.construct.startswith("with ") or ".close(" in f.construct:
+            rep.fail(Finding("C01-BORROW", f.file, f.function, f.construct, f.message + " — `ValueError: I/O operation on closed file` escapes instead of an ExtractionError", line=f.line))
+    for _ in range(max(0, src.obligations - len(rep.findings))):
+        rep.ok()
+    return rep
+
+
+RULES = [rule_wrap, rule_exit, rule_cli, rule_rec, rule_loop, rule_unbound, rule_borrow, rule_regex]
